@@ -22,8 +22,15 @@ import CpModel.HeaderEnc
   * the message `get_error_page` builds when a custom `error_page` callable/template FAILED
     (`failedMessage`, repaired form: the exception text is escaped — F2).
 
-  Not modelled: what a working custom `error_page` callable/template returns (it replaces the
-  built-in page), tracebacks (the traceback text is an input), `logging` record formatting.
+  Round 2 (end of file): custom `error_page` TEMPLATE files (`errorPageWith`), custom
+  `access_log_format` (`accessLineWithMarked`), the access-log escaping with the proposed backslash
+  guard (`logEscapeGuarded`) and the one the live code uses (`logEscapeLive`, probed flag).  The
+  sentences the code writes itself (failed custom page, redirect pages) come from the generated
+  table, so rewording them does not touch the model.
+
+  Not modelled: what a working custom `error_page` CALLABLE returns (it replaces the built-in
+  page; the escaped values it is handed are compared), tracebacks (the traceback text is an
+  input), `logging` record formatting.
 -/
 namespace CpModel.Escape
 open CpModel.Gen.C12
